@@ -64,6 +64,9 @@ checks = {
  "C17": ("E3", E3,
    "11 constructors (the 8 named ones and the 3 generic ones) x 7 templates with 0-4 placeholders x all 32 subsets of {x,y,z,w,unused} as PathParam (values 1, \"v\", \"a b\", 3.5; also a nil PathParam) x 3 default headers, plus 7 injected faults / body shapes (serializer, transport, body-read, deserializer, deserializer returning nil, unserialisable body, nil body) over a stub RoundTripper whose response body honours the request context; every returned MonadIO is evaluated twice. Oracle: nothing sent before Eval; exactly one request per Eval with the constructor's method, BaseURL + \"/\" + substituted template, a copy of DefaultHeader plus the declared Content-Type (shared map unchanged even when the transport mutates the request header), the serializer's output as body (multipart bodies re-parsed); target filled; faults surface as Err, never a panic.",
    "Stub transport instead of sockets; brace-free placeholder values (substitution order irrelevant); the planned map-order seam was not built.", "DESIGN.md §4, §5 C17"),
+ "C18": ("E2", E2,
+   "Breadth-first search over all histories up to depth 4 (thorough 5) of 15 operations (AddInterceptor of one / two / a failing interceptor, RemoveInterceptor, ClearInterceptor, SetHTTPClient with another client, the same client again, a copy of the current client; Get, Post, SimpleAPI Get) applied to either of two SimpleHTTP instances that were built from ONE caller-owned interceptor slice with spare capacity; every history ends with a probe request on each instance. Per request the shared call log must equal the registered interceptors in order followed by exactly one transport call, cut at the first failing interceptor whose error is surfaced; header changes must reach the transport; a SimpleHTTP that has become its own underlying transport is reported as recursion. States are de-duplicated on the canonical private state of both objects plus the model lists.",
+   "Bounded history depth; stub transports; one http.Client per instance; which stub transport is used after switching clients is not demanded.", "DESIGN.md §3, §5 C18"),
 }
 
 not_yet = "check not built yet in this round (see DESIGN.md §9 build order); no claim made"
